@@ -29,7 +29,8 @@ Print Assumptions C01_break_guard.
        top level of the `while True:` body before any read of it in that body (so it is a local of
        loop() that every pass assigns before using it),
      - every later assignment / augmented assignment keeps the type label of the first one,
-     - no tuple assignment,
+     - tuple assignment only as the declaration `x1, ..., xn = e1, ..., en` of n distinct NEW names at top
+       level of the setup part (plain global declarations; no swap, no temporaries),
      - range() bounds are int-labelled, do not read the loop variable nor any name the loop
        body assigns, loop variables are fresh, never assigned, and read only inside their loop,
      - expression ids identify annotations consistently,
@@ -68,6 +69,15 @@ Example C01_stmt_preserve_nonvacuous_local :
             cprog_exec demo_local_sem demo_aug (info_of demo_local) 30 3 true c = Some demo_local_trace.
 Proof. exact demo_local_ok. Qed.
 Print Assumptions C01_stmt_preserve_nonvacuous_local.
+
+(* ... and by a program with tuple declarations of new globals that read a re-assigned variable. *)
+Example C01_stmt_preserve_nonvacuous_tuple :
+  guard_ok demo_tuple = true /\ sem_facts demo_tuple_sem demo_aug demo_tuple /\
+  pprog_exec demo_tuple_sem demo_aug 30 0 demo_tuple = Some demo_tuple_trace /\
+  exists c, transl demo_tuple = Some c /\
+            cprog_exec demo_tuple_sem demo_aug (info_of demo_tuple) 30 0 false c = Some demo_tuple_trace.
+Proof. exact demo_tuple_ok. Qed.
+Print Assumptions C01_stmt_preserve_nonvacuous_tuple.
 
 (* The guard clause on range() bounds is necessary: `n = 3; for i in range(n): n = n - 1;
    mon.write(i)` is accepted, Python writes 0 1 2, the C for-loop (bound re-evaluated before
